@@ -344,4 +344,31 @@ def deserializeX (XO : XOracles) (opts : DeserOpts) (cls : XDecl) (doc : PyVal) 
 /-- `Serializer(x).serialize()` -/
 def serializeX (XO : XOracles) (cls : XDecl) (x : PyVal) : R PyVal := serX XO cls x
 
+/-! ### compact single-field wrappers -/
+
+/-- the single field of a compact wrapper class: exactly one field, required, additional properties off -/
+def xCompactField : XDecl → Option (String × XDecl)
+  | .struct c [(n, x)] => if c.required == [n] && !c.addl then some (n, x) else none
+  | _ => none
+
+/-- `Serializer(x).serialize(compact=True)`: a compact wrapper serializes to the serialized form of its field -/
+def serializeCompactX (XO : XOracles) (cls : XDecl) (v : PyVal) : R PyVal :=
+  match xCompactField cls, v with
+  | some (n, x), .inst _ attrs =>
+    (match lookup n attrs with
+      | some w => serX XO x w
+      | none => .error (.other "AttributeError"))
+  | _, _ => serializeX XO cls v
+
+/-- `Deserializer(cls).deserialize(d)` with compact deserialization on: a document that is not an object is
+    read by the single field of a compact wrapper and handed to the constructor -/
+def deserializeCompactX (XO : XOracles) (opts : DeserOpts) (cls : XDecl) (d : PyVal) : R PyVal :=
+  match cls, d with
+  | .struct _ _, .dict _ => deserializeX XO opts cls d
+  | .struct c fields, d' =>
+    (match xCompactField (.struct c fields) with
+      | some (n, x) => bindE (deserX XO opts c.ignoreNone x d') fun y => constructX XO (.struct c fields) [(n, y)]
+      | none => deserializeX XO opts cls d')
+  | _, _ => deserializeX XO opts cls d
+
 end Typedpy
